@@ -99,10 +99,17 @@ Definition compile_options (l : level) : oparser := Options (compile l) default_
 (* ------------------------------------------------------------------ denote *)
 Inductive verdict := Accept (v : val) | Reject | Unspecified.
 
-(* what the scan records for a level *)
+(* what the scan records for a level: the role of every token, and from it the occurrences of the
+   items and the positional words, both in command-line order *)
+Inductive role :=
+| RKey (k : nat)        (* an occurrence of item number k *)
+| RVal (k : nat)        (* the value of the occurrence before it *)
+| RWord                 (* a positional word *)
+| RMark.                (* the `--` item *)
 Record attribution := mkAttr {
-  at_occ : list (nat * option bytes);      (* (item number, value) in command-line order *)
-  at_words : list bytes }.                 (* positional words in command-line order *)
+  at_roles : list role;
+  at_occ : list (nat * option bytes);      (* (item number, value) *)
+  at_words : list bytes }.
 
 Fixpoint find_owner (items : list citem) (a : arg) (k : nat) : option (nat * citem) :=
   match items with
@@ -148,13 +155,20 @@ Inductive scan_result :=
 | ScReject
 | ScUnspec.
 
+Definition att_cons (r : list role) (o : list (nat * option bytes)) (w : list bytes) (res : scan_result)
+  : scan_result :=
+  match res with
+  | ScDone a => ScDone (mkAttr (r ++ at_roles a) (o ++ at_occ a) (w ++ at_words a))
+  | ScCmd a sub rest => ScCmd (mkAttr (r ++ at_roles a) (o ++ at_occ a) (w ++ at_words a)) sub rest
+  | x => x
+  end.
+
 (* tokens come with "this is the `--` item" *)
-Fixpoint scan (items anc : list citem) (tail : ctail) (ts : list (arg * bool))
-         (occ : list (nat * option bytes)) (words : list bytes) {struct ts} : scan_result :=
+Fixpoint scan (items anc : list citem) (tail : ctail) (ts : list (arg * bool)) {struct ts} : scan_result :=
   let rej (r : list (arg * bool)) := if unspec_later items anc tail false r then ScUnspec else ScReject in
   match ts with
-  | [] => ScDone (mkAttr (rev occ) (rev words))
-  | (_, true) :: rest => scan items anc tail rest occ words          (* `--` itself *)
+  | [] => ScDone (mkAttr [] [] [])
+  | (_, true) :: rest => att_cons [RMark] [] [] (scan items anc tail rest)          (* `--` itself *)
   | (a, false) :: rest =>
     match a with
     | Short _ adj _ | Long _ adj _ =>
@@ -164,11 +178,13 @@ Fixpoint scan (items anc : list citem) (tail : ctail) (ts : list (arg * bool))
         | Some (k, it) =>
           if is_argument it then
             match rest with
-            | (ArgWord w, false) :: rest' => if adj then scan items anc tail rest' ((k, Some w) :: occ) words else rej ts
-            | (Word w, false) :: rest' => scan items anc tail rest' ((k, Some w) :: occ) words   (* `-n v` and `-nv` *)
+            | (ArgWord w, false) :: rest' =>
+              if adj then att_cons [RKey k; RVal k] [(k, Some w)] [] (scan items anc tail rest') else rej ts
+            | (Word w, false) :: rest' =>                                          (* `-n v` and `-nv` *)
+              att_cons [RKey k; RVal k] [(k, Some w)] [] (scan items anc tail rest')
             | _ => rej ts
             end
-          else if adj then rej ts else scan items anc tail rest ((k, None) :: occ) words
+          else if adj then rej ts else att_cons [RKey k] [(k, None)] [] (scan items anc tail rest)
         | None =>
           match find_owner anc a O with
           | Some _ => ScUnspec            (* an enclosing level's option right of the subcommand name *)
@@ -180,16 +196,16 @@ Fixpoint scan (items anc : list citem) (tail : ctail) (ts : list (arg * bool))
       else
         match tail with
         | TNone => rej ts
-        | TPos _ => scan items anc tail rest occ (w :: words)
+        | TPos _ => att_cons [RWord] [] [w] (scan items anc tail rest)
         | TCmds cs =>
           match find_cmd cs w with
-          | Some sub => ScCmd (mkAttr (rev occ) (rev words)) sub rest
+          | Some sub => ScCmd (mkAttr [] [] []) sub rest
           | None => rej ts
           end
         end
     | PosWord w =>
       match tail with
-      | TPos _ => scan items anc tail rest occ (w :: words)
+      | TPos _ => att_cons [RWord] [] [w] (scan items anc tail rest)
       | _ => rej ts
       end
     | ArgWord _ => rej ts
@@ -247,33 +263,35 @@ Fixpoint items_values (items : list citem) (k : nat) (occ : list (nat * option b
   end.
 
 (* the positional suffix Req* Opt* (Many|Some)? takes the words left to right *)
+Definition conv_word (ty : vty) (w : bytes) : option val :=
+  match convert ty w with inl v => Some v | inr _ => None end.
+Fixpoint conv_words (ty : vty) (ws : list bytes) : option (list val) :=
+  match ws with
+  | [] => Some []
+  | w :: r => match conv_word ty w, conv_words ty r with Some v, Some vs => Some (v :: vs) | _, _ => None end
+  end.
+
 Fixpoint pos_values (ps : list cpos) (ws : list bytes) : option (list val) :=
   match ps with
   | [] => match ws with [] => Some [] | _ => None end
   | p :: t =>
-    let conv w := match convert (cp_ty p) w with inl v => Some v | inr _ => None end in
-    let fix conv_all (l : list bytes) : option (list val) :=
-      match l with
-      | [] => Some []
-      | w :: r => match conv w, conv_all r with Some v, Some vs => Some (v :: vs) | _, _ => None end
-      end in
     match cp_par p with
     | QReq =>
       match ws with
-      | w :: r => match conv w, pos_values t r with Some v, Some vs => Some (v :: vs) | _, _ => None end
+      | w :: r => match conv_word (cp_ty p) w, pos_values t r with Some v, Some vs => Some (v :: vs) | _, _ => None end
       | [] => None
       end
     | QOpt =>
       match ws with
-      | w :: r => match conv w, pos_values t r with Some v, Some vs => Some (VSome v :: vs) | _, _ => None end
+      | w :: r => match conv_word (cp_ty p) w, pos_values t r with Some v, Some vs => Some (VSome v :: vs) | _, _ => None end
       | [] => match pos_values t [] with Some vs => Some (VNone :: vs) | None => None end
       end
     | QMany =>
-      match conv_all ws, pos_values t [] with Some vs, Some r => Some (VList vs :: r) | _, _ => None end
+      match conv_words (cp_ty p) ws, pos_values t [] with Some vs, Some r => Some (VList vs :: r) | _, _ => None end
     | QSome =>
       match ws with
       | [] => None
-      | _ => match conv_all ws, pos_values t [] with Some vs, Some r => Some (VList vs :: r) | _, _ => None end
+      | _ => match conv_words (cp_ty p) ws, pos_values t [] with Some vs, Some r => Some (VList vs :: r) | _, _ => None end
       end
     end
   end.
@@ -286,7 +304,7 @@ Fixpoint denote_level (fuel : nat) (l : level) (anc : list citem) (ts : list (ar
   | S f =>
     match l with
     | Level items tail =>
-      match scan items anc tail ts [] [] with
+      match scan items anc tail ts with
       | ScUnspec => Unspecified
       | ScReject => Reject
       | ScDone a =>
@@ -318,13 +336,12 @@ Fixpoint denote_level (fuel : nat) (l : level) (anc : list citem) (ts : list (ar
     end
   end.
 
-Definition mark_tokens (t : tokenized) : list (arg * bool) :=
-  let fix go (l : list arg) (ix : nat) : list (arg * bool) :=
-    match l with
-    | [] => []
-    | a :: r => (a, match t_marker t with Some m => Nat.eqb m ix | None => false end) :: go r (S ix)
-    end in
-  go (t_items t) O.
+Fixpoint mark_go (mk : option nat) (l : list arg) (ix : nat) : list (arg * bool) :=
+  match l with
+  | [] => []
+  | a :: r => (a, match mk with Some m => Nat.eqb m ix | None => false end) :: mark_go mk r (S ix)
+  end.
+Definition mark_tokens (t : tokenized) : list (arg * bool) := mark_go (t_marker t) (t_items t) O.
 
 Definition denote (l : level) (argv : list bytes) : verdict :=
   let '(sf, sa) := short_tables (compile_options l) in
@@ -332,4 +349,27 @@ Definition denote (l : level) (argv : list bytes) : verdict :=
   match t_ambiguity t with
   | Some _ => Unspecified
   | None => denote_level (S (length (t_items t))) l [] (mark_tokens t)
+  end.
+
+(* ------------------------------------------------------------------ the conventional FLAT level, decidably *)
+(* every item has a name and no environment variable; names are unique; at least two fields
+   (construct! of one field is the field itself); no subcommands *)
+Definition named_ok (n : named) : bool :=
+  is_nil (n_env n) && negb (is_nil (n_short n) && is_nil (n_long n)).
+
+Definition share (a b : named) : bool :=
+  existsb (fun c => mem_N c (n_short b)) (n_short a) || existsb (fun l => mem_bytes l (n_long b)) (n_long a).
+
+Fixpoint disjointb (l : list citem) : bool :=
+  match l with
+  | [] => true
+  | x :: t => forallb (fun y => negb (share (item_named x) (item_named y))) t && disjointb t
+  end.
+
+Definition flat_okb (items : list citem) (tail : ctail) : bool :=
+  disjointb items && forallb (fun it => named_ok (item_named it)) items &&
+  match tail with
+  | TNone => Nat.leb 2 (length items)
+  | TPos ps => Nat.leb 2 (length items + length ps)
+  | TCmds _ => false
   end.
